@@ -30,6 +30,12 @@ def classify(nn, site, atom, pol, dinfo):
     h = head(a)
     if h == "cmp":
         op, x, y = a[1], strip(a[2]), strip(a[3])
+        if op in ("<", "<=", ">", ">=") and is_call(x, "builtins.len") and is_const(y) and isinstance(y[2], int) and nn.coll_space(q, x[2][0]) is not None:
+            # candidate lists with fewer than two members hold no pair: kept iff len >= 2 (> 1); skipping len < 2 (<= 1) drops nothing
+            kept_min = {(">", True): y[2] + 1, (">=", True): y[2], ("<", False): y[2], ("<=", False): y[2] + 1}.get((op, pol))
+            if kept_min is not None and kept_min <= 2:
+                return ("struct", "singleton-skip")
+            return ("unknown", "candidate lists are filtered by length")
         if op in ("<", "<=", ">", ">="):
             dx = dinfo if (dinfo is not None and x == strip(site.d)) else nn.dist_of(q, x, None)
             dy = dinfo if (dinfo is not None and y == strip(site.d)) else nn.dist_of(q, y, None)
@@ -123,6 +129,12 @@ def check_site(r, rule, nn, site, mode, spaceA, spaceB, self_policy, equal_lengt
     rep.ob(rule + "-FGA", con, bk in want, f"reported value is the {'/'.join(sorted(want))} distance in mode {mname}", where,
            expected="/".join(sorted(want)), found=dinfo["kind"], key=f"{K} reported kind")
 
+    # ---- asserted conditions: accepted when they hold by construction (distinct positions drawn by combinations), otherwise undecided
+    for atom, pol in site.extra.get("asserted", []):
+        c = classify(nn, site, atom, pol, dinfo)
+        by_construction = c[0] == "self" and c[1] and c[2] == c[3] and any(is_call(strip(x), "itertools.combinations") for t_ in (site.a, site.b) for x in walk(t_))
+        if not by_construction:
+            rep.require(False, f"{q}:{site.line}: the assertion {'' if pol else 'not '}{show(atom, 80)} before the insertion cannot be discharged; cannot decide [{rule}]")
     # ---- classify guards
     thr, selfs, unknown, lenf = [], [], [], []
     for atom, pol in site.guards:
@@ -582,6 +594,20 @@ def _affine_range(nn, q, it, lo_expect, hi_role):
     if lo is None:
         return None
     ctx = RFContext()
+    # min(K, len(x)): a bound clipped at the length of the string enumerates the same non-empty subsets
+    clipped = []
+
+    def unclip(t):
+        if is_call(t, "builtins.min") and len(t[2]) == 2 and not t[3]:
+            ks = [x for x in t[2] if nn.R._role_of(q, strip(x)) == hi_role]
+            ls = [x for x in t[2] if is_call(strip(x), "builtins.len")]
+            if len(ks) == 1 and len(ls) == 1:
+                clipped.append(strip(ls[0]))
+                return ks[0]
+        return t
+    from ..rules import rewrite as _rw
+    hi = _rw(strip_all(hi), unclip)
+    _affine_range.clipped = list(clipped)
     rl, rh = ctx.rf(lo), ctx.rf(hi)
     roles = {nn.R._role_of(q, t) for t in walk(hi) if head(t) in ("param", "attr", "item")}
     ok_lo = rl.is_const() and rl.const_value() <= lo_expect
@@ -651,44 +677,72 @@ def check_comb_gen(r, rule):
     s = nn.summary(q)
     r.rep.analysed(q)
     seq = ("param", s.params[0][0])
+    lenseq = ("call", ("glob", "builtins.len"), (seq,), ())
     where = wh(r, q, s.func.node)
     ret = strip(s.ret)
-    # result accumulator
+
+    def undecided(msg):
+        r.rep.require(False, f"{q}: {msg}: outside the enumeration idiom list; cannot decide [{rule}]")
+    # ---- shape recognition: a set accumulator filled by one add() inside  for d in range(..): for c in combinations(..)
     if head(ret) != "after":
-        raise AnalysisBroken(f"{q}: returned value {show(ret, 60)} is not a loop accumulator")
+        return undecided(f"returned value {show(ret, 60)} is not a loop accumulator")
     outer = s.loops.get(ret[1])
     name = ret[2]
+    adds = [e for e in s.events_of("mutate") if e["name"] == name and e["method"] == "add"]
+    if outer is None or len(adds) != 1 or len(adds[0].ctx.loops) != 2 or adds[0].ctx.loops[0] != outer.lid:
+        return undecided(f"expected one add() inside a 2-deep loop nest, found {len(adds)}")
+    e = adds[0]
+    subsets = s.loops[e.ctx.loops[1]]
+    si = strip(subsets.iterable)
+    ar = _affine_range(nn, q, outer.iterable, 1, "K")
+    clipped = list(getattr(_affine_range, "clipped", []))
+    if ar is None or not (is_call(si, "itertools.combinations") and len(si[2]) == 2 and not si[3]):
+        return undecided(f"loop nest {show(outer.iterable, 40)} / {show(si, 40)} is not range(..) / combinations(.., ..)")
+    base, size = strip_all(si[2][0]), strip_all(si[2][1])
+    ctx = RFContext()
+    if is_call(base, "builtins.range"):
+        idiom = "positions"
+    elif base == seq:
+        idiom = "kept"
+    else:
+        return undecided(f"combinations over {show(base, 40)}")
+    # ---- obligations
     init = strip(outer.init.get(name, NONE))
     is_set0 = (is_call(init, "builtins.set") and len(init[2]) == 1 and head(strip(init[2][0])) == "list" and tuple(map(strip, strip(init[2][0])[1])) == (seq,)) or \
               (head(init) == "set" and tuple(map(strip, init[1])) == (seq,))
     r.rep.ob(rule, q, is_set0, "the variant set starts as {seq} and is a set (0 deletions included, duplicates collapse)", where, expected="set([seq])", found=show(init, 60), key="comb init")
-    ar = _affine_range(nn, q, outer.iterable, 1, "K")
-    if ar is None:
-        raise AnalysisBroken(f"{q}: outer loop iterable {show(outer.iterable, 60)} is not range(lo, hi)")
-    r.rep.ob(rule, q, ar[0] and ar[1], "number of deletions ranges over 1..max_edits", wh(r, q, outer.node), expected="range(1, max_edits + 1)", found=ar[2], key="comb edit range")
-    adds = [e for e in s.events_of("mutate") if e["name"] == name and e["method"] == "add"]
-    if len(adds) != 1 or len(adds[0].ctx.loops) != 2:
-        raise AnalysisBroken(f"{q}: expected one add() inside a 2-deep loop nest, found {len(adds)}")
-    e = adds[0]
-    subsets = s.loops[e.ctx.loops[1]]
-    si = strip(subsets.iterable)
-    ok_sub = is_call(si, "itertools.combinations") and len(si[2]) == 2 and strip(si[2][1]) == outer.elem
-    rng = strip(si[2][0]) if ok_sub else None
-    ok_rng = rng is not None and is_call(rng, "builtins.range") and len(rng[2]) == 1 and strip(rng[2][0]) in (("call", ("glob", "builtins.len"), (seq,), ()),)
-    r.rep.ob(rule, q, ok_sub and ok_rng, "deleted position sets are all subsets of range(len(seq)) whose size is the loop's number of deletions", wh(r, q, subsets.node),
-             expected="combinations(range(len(seq)), edit)", found=show(si, 80), key="comb subsets")
+    ok_range = ar[0] and ar[1]
+    if idiom == "kept":
+        # sizes len(seq) - d must stay non-negative: the bound has to be clipped at len(seq)
+        ok_range = ok_range and strip_all(lenseq) in [strip_all(c) for c in clipped]
+    r.rep.ob(rule, q, ok_range, "number of deletions ranges over 1..max_edits" + (" (clipped at len(seq) so that the subsequence length stays non-negative)" if idiom == "kept" else ""),
+             wh(r, q, outer.node), expected="range(1, max_edits + 1)" if idiom == "positions" else "range(1, min(max_edits, len(seq)) + 1)", found=ar[2], key="comb edit range")
+    if idiom == "positions":
+        ok_sub = size == strip_all(outer.elem) and len(base[2]) == 1 and strip_all(base[2][0]) == strip_all(lenseq)
+        r.rep.ob(rule, q, ok_sub, "deleted position sets are all subsets of range(len(seq)) whose size is the loop's number of deletions", wh(r, q, subsets.node),
+                 expected="combinations(range(len(seq)), edit)", found=show(si, 80), key="comb subsets")
+    else:
+        d = ctx.rf(size) + ctx.rf(strip_all(outer.elem)) - ctx.rf(strip_all(lenseq))
+        r.rep.ob(rule, q, d.is_const() and d.const_value() == 0, "kept subsequences have length len(seq) - number of deletions", wh(r, q, subsets.node),
+                 expected="combinations(seq, len(seq) - edit)", found=show(si, 80), key="comb subsets")
     r.rep.ob(rule, q, not e.ctx.guards, "no variant is skipped", wh(r, q, e.node), expected="unguarded add", found=f"{len(e.ctx.guards)} guard(s)", key="comb unguarded")
     # the variant string
     v = strip(e["args"][0])
-    okv, why = _is_deletion_variant(s, v, seq, subsets.elem)
+    if idiom == "positions":
+        okv, why = _is_deletion_variant(s, v, seq, subsets.elem)
+        if okv is None:
+            return undecided(why)
+    else:
+        okv = is_mcall(v, "join") and is_const(strip(strip(v[1])[1]), "") and len(v[2]) == 1 and strip(v[2][0]) == subsets.elem
+        why = show(v, 80)
     r.rep.ob(rule, q, okv, "each variant is seq with exactly the chosen positions removed", wh(r, q, e.node),
-             expected="''.join(pieces between consecutive deleted positions, offset 0 .. index, offset = index+1, tail to the end)", found=why, key="comb variant")
+             expected="''.join(pieces between consecutive deleted positions, offset 0 .. index, offset = index+1, tail to the end)" if idiom == "positions" else "''.join(kept)", found=why, key="comb variant")
 
 
 def _is_deletion_variant(s, v, seq, indexes):
     lenseq = ("call", ("glob", "builtins.len"), (seq,), ())
     if not (is_mcall(v, "join") and is_const(strip(strip(v[1])[1]), "") and len(v[2]) == 1):
-        return False, f"not ''.join(...): {show(v, 60)}"
+        return None, f"variant {show(v, 60)} is not ''.join(...)"
     arg = strip(v[2][0])
     # idiom 2: ''.join(c for k, c in enumerate(seq) if k not in indexes)
     if head(arg) == "comp" and len(arg[3]) == 1:
@@ -698,13 +752,13 @@ def _is_deletion_variant(s, v, seq, indexes):
             c = strip(conds[0])
             if head(c) == "cmp" and c[1] == "notin" and strip(c[2]) == ("item", elem, 0) and strip(c[3]) == strip(indexes):
                 return True, "comprehension idiom"
-        return False, f"comprehension outside idiom: {show(arg, 80)}"
+        return None, f"comprehension outside idiom: {show(arg, 80)}"
     # idiom 1: gap-building loop
     if not (head(arg) == "mut" and arg[1] == "append" and len(arg[3]) == 1):
-        return False, f"joined value is not a piece list closed by a tail append: {show(arg, 80)}"
+        return None, f"joined value is not a piece list closed by a tail append: {show(arg, 80)}"
     tail, body = strip(arg[3][0]), strip(arg[2])
     if head(body) != "after":
-        return False, "piece list is not built by a loop"
+        return None, "piece list is not built by a loop"
     lp = s.loops.get(body[1])
     if lp is None or strip(lp.iterable) != strip(indexes):
         return False, f"gap loop iterates {show(lp.iterable if lp else None, 40)}, not the chosen positions"
